@@ -58,7 +58,7 @@ class Prop(PropBase):
             bw_hz = rate_hz if sigs.is_complex(cls) else rng.choice([rate_hz, 1e5, 1e6, 5e6])
             if cf_hz - n * bw_hz <= 1e6:
                 cf_hz = 1.4e9
-            ref = rng.choice(["none", "top", "bottom", "above", "below", "inside"])
+            ref = rng.choice(["none", "top", "bottom", "above", "below", "inside", "inf"])
             # choose DM so that the largest |delay| is about `target` samples (either sign)
             target = rng.choice([0.4, 0.5, 1.5, 2.5, 3.0, L / 3, L - 1, L, L + 3.5, rng.uniform(0, L + 5)])
             yield {"op": "incoh", "cls": cls, "n": n, "L": L, "rate": rate_hz, "cf": cf_hz, "bw": bw_hz,
@@ -78,8 +78,9 @@ class Prop(PropBase):
     def _ref(self, case, z):
         u = self.u
         r = {"none": None, "top": z.max_freq, "bottom": z.min_freq, "above": z.max_freq + 3 * z.bandwidth,
-                "below": z.min_freq * 0.75, "inside": z.center_freq + 0.3 * z.chan_bw}[case["ref"]]
-        if r is not None and case.get("seed", len(str(case))) % 5 == 2:
+                "below": z.min_freq * 0.75, "inside": z.center_freq + 0.3 * z.chan_bw,
+                "inf": self.np.inf * u.MHz}[case["ref"]]        # the customary infinite reference frequency
+        if r is not None and case["ref"] != "inf" and case.get("seed", len(str(case))) % 5 == 2:
             r = r.to(self.u.GHz if case.get("seed", 0) % 2 else self.u.Hz)      # the same reference frequency in another unit
         return r
 
